@@ -1350,6 +1350,11 @@ func (pc *PartitionContext) handleForeignAllocation(allocationKey, applicationID
 	if node == nil {
 		return false, false, fmt.Errorf("failed to find node %s for allocation %s", nodeID, allocationKey)
 	}
+	// a foreign allocation may use no tracked resource at all but never a negative amount:
+	// a negative value would increase the available resources of the node beyond its capacity
+	if alloc.GetAllocatedResource().HasNegativeValue() {
+		return false, false, fmt.Errorf("foreign allocation %s contains negative resources", allocationKey)
+	}
 
 	exists := pc.getOrStoreForeignAlloc(alloc)
 	if !exists {
